@@ -70,7 +70,8 @@ ArcOK(rz, endPt) ==
 (* centre, a large arc passes behind it.                                   *)
 (***************************************************************************)
 ToVB10(P, s, m) == (P \div s) * 16 + ((P % s) * 16) \div s + m * 16
-Div11(N, D) == (N \div D) * 2048 + ((N % D) * 2048) \div D
+Div11(N, D) == IF D >= 524288 THEN ((N \div 8) \div (D \div 8)) * 2048 + (((N \div 8) % (D \div 8)) * 2048) \div (D \div 8)
+               ELSE (N \div D) * 2048 + ((N % D) * 2048) \div D
 BezW(k) == << (16 - k) * (16 - k) * (16 - k), 3 * (16 - k) * (16 - k) * k, 3 * (16 - k) * k * k, k * k * k >>
 Bez(p0, p1, p2, p3, k) == LET w == BezW(k) IN (w[1] * p0 + w[2] * p1 + w[3] * p2 + w[4] * p3) \div 4096
 
